@@ -341,7 +341,7 @@ func readSidecar(id string) (*Sidecar, error) {
 }
 
 func readKnown() (*KnownFile, error) {
-	b, err := os.ReadFile(filepath.Join(verifDir, "known_findings.json"))
+	b, err := os.ReadFile(envOr("GOSYM_KNOWN", filepath.Join(verifDir, "known_findings.json")))
 	if err != nil {
 		if os.IsNotExist(err) {
 			return &KnownFile{}, nil
